@@ -8,7 +8,9 @@ MANIFEST = dict(
           "comparator: for every comparator that is a total preorder by sign (LawfulCmp; key equality is cmp=0 only) and every "
           "history, RBTree (Add/Set/Find/Delete/KeyValues/Size), TreeMap, TreeSet, the tree-backed LinkedMap and MultiMap return "
           "exactly what the abstract cmp-sorted association list (insertion-ordered list for LinkedMap) returns and hold exactly "
-          "its contents; KeyValues is strictly ascending; failing calls return the identical state. Tied to /repo on every run: the "
+          "its contents; KeyValues is strictly ascending; failing calls return the identical state (RBTree, and in Props/C01Rev.lean "
+          "TreeMap, MultiMap, LinkedMap: c01_*_failed_call_unchanged); every-history-from-the-constructor forms for all wrappers; "
+          "the specification itself stays sorted, holds one entry per comparator class and obeys the map laws (c01_spec_*). Tied to /repo on every run: the "
           "compiled model is an acceptor for traces of the real containers (results, Keys/Values/Len, white-box colour/key/shape dump "
           "of the real tree after every call, comparator-call counts)."),
     note=COMMON_NOTE + " The imperative parent-pointer tree is modelled by its recursive reformulation (tied by per-call shape-dump "
